@@ -34,3 +34,20 @@ package index
 //@   loop 3 invariant !isDisjunction ==> forall(k, 0, len(finalResults), bhas(finalSet, finalResults[k].NodeId))
 //@   loop 3 invariant forall(k, 0, len(finalResults), contains(deduplicateMap, finalResults[k].NodeId) && deduplicateMap[finalResults[k].NodeId] == k)
 //@   loop 3 invariant forallv(id uint64, contains(deduplicateMap, id) ==> 0 <= deduplicateMap[id] && deduplicateMap[id] < len(finalResults) && finalResults[deduplicateMap[id]].NodeId == id)
+
+// ---- _id lookups (property C02) ----
+// Only string-equals and stringArray-containsAny are accepted; every id that is looked up is one
+// of the requested ids, and a node id enters the answer only when the point store found that id
+// (an unknown id is skipped) and is the node id the point store reported for it.
+//@ func (indexManager).searchById
+//@   property C02
+//@   safety -overflow -nil
+//@   ensures q.String != nil && q.String.Operator != "equals" ==> err != nil
+//@   ensures q.String == nil && q.StringArray != nil && q.StringArray.Operator != "containsAny" ==> err != nil
+//@   ensures q.String == nil && q.StringArray == nil ==> err != nil
+//@   ensures err == nil ==> result0 != nil && len(result1) == 0
+//@   before Parse requires (q.String != nil && arg0 == q.String.Value) || (q.String == nil && q.StringArray != nil && exists(j, 0, len(q.StringArray.Value), q.StringArray.Value[j] == arg0))
+//@   before GetPointNodeIdByUUID requires callres(Parse, 1, 1) == nil && arg1 == callres(Parse, 1, 0)
+//@   before Add requires callres(GetPointNodeIdByUUID, 1, 1) == nil && arg1 == callres(GetPointNodeIdByUUID, 1, 0)
+//@   loop 1 invariant rangeindex >= -1 && rangeindex < len(ids) && rSet != nil
+//@   loop 1 invariant (q.String != nil && len(ids) == 1 && ids[0] == q.String.Value) || (q.String == nil && q.StringArray != nil && ids == q.StringArray.Value)
